@@ -565,7 +565,15 @@ def check_C06(ctx):
                 cmd = r.choice(PERIOD_CMDS)
                 c1 = period_case(r, f, cmd, tz=tz, g_begin=kwd); c1["f_today"] = ts
                 c2 = period_case(r, fdel, cmd, tz=tz); c2["f_today"] = ts
-                cases += [c1, c2]; pairs.append((len(cases) - 2, len(cases) - 1, "keyword %s today=%s %s tz=%s" % (kwd, ts, cmd, tz[0])))
+                src = "--today"
+                if r.random() < 0.3:
+                    # the current date from the configuration file (`Now=` with a time of day and a zone of its own) instead of --today: the keywords
+                    # mean that CALENDAR DAY, whatever the hour and the zone say (fix F25)
+                    nowv = (today.year, today.month, today.day) + r.choice([(3600, 0), (82800, -18000), (43200, 32400), (86399, 0), (1, 50400)]); src = "config Now=%r" % (nowv,)
+                    for c in (c1, c2):
+                        del c["f_today"]; c["files"] = dict(c["files"], **{"now.cfg": {"cfg": {"now": nowv}}}); c["f_config"] = "now.cfg"
+                cases += [c1, c2]; pairs.append((len(cases) - 2, len(cases) - 1, "keyword %s today=%s (%s) %s tz=%s" % (kwd, ts, src, cmd, tz[0])))
+                ctx.tally("current_date_source", src.split(" ")[0])
         # the date format from the configuration file / the environment / the flag: --today, the bounds and the headings are all read in the format IN EFFECT
         if ln < ctx.scale(3, 12):
             for lay in ("2006-01-02", "02.01.2006", "01/02/2006", "2 Jan 2006"):
@@ -764,6 +772,10 @@ def check_C07(ctx):
             for it_i, it in enumerate(list(w["log"])):
                 if it[0] == "heading":
                     w["log"].insert(it_i + 1, ("entry", g, gen.number(r, True))); w["log"].insert(it_i + 2, ("entry", g + "/sub", gen.number(r, True))); break
+        if k % 4 == 3:
+            # the element itself logged as a food (the book does not define it: it stands for itself in every report)
+            for it_i, it in enumerate(list(w["log"])):
+                if it[0] == "heading" and r.random() < 0.6: w["log"].insert(it_i + 1, ("entry", x, gen.number(r, True)))
         if k % 4 == 1:
             # amounts with more significant digits than single precision holds (exact in binary64: integers and quarters)
             for it_i, it in enumerate(list(w["log"])):
@@ -816,6 +828,10 @@ def check_C07(ctx):
             tp, tn, ts = tot.get(xb, (Fraction(0), Fraction(0), Fraction(0)))
             if not (close(sp, tp, tol) and close(-sn, tn, tol)):
                 viol("totals-vs-single-element-register", "element %r: period totals %s / %s, reg -s rows add up to %s / %s" % (x, tp, tn, sp, -sn), "totals", "regsx")
+            # single-element register grouped by food (reg -s X -g: "sum<TAB>food" rows): the rows add up to the period total of X as well (fix F26: X logged directly counts)
+            gs = sum((num(l.split(b"\t")[0]) for l in o["regsxg"]["stdout"].split(b"\n") if l), Fraction(0))
+            if not close(gs, ts, tol * 2):
+                viol("totals-vs-grouped-single-element-register", "element %r: period total %s, reg -s -g rows add up to %s" % (x, ts, gs), "totals", "regsxg")
             # single-element balance grand total
             rows, grand = parse_bal(o["balsx"]["stdout"])
             if grand is not None and not close(num(grand[0]), ts, tol):
@@ -889,6 +905,19 @@ def check_C07(ctx):
         logb = "".join("%04d/%02d/%02d:\n  a: 1\n" % h for h in hs).encode()
         far.append((dict(files={"food.yaml": b"x:\n  k: 1\n", "log.yaml": logb}, cmd="stats", f_today="%04d/%02d/%02d" % today, **NOCOLOR), hs, today))
         ctx.nontriv(logb + bytes(str(today), "ascii"))
+    # a heading that is not a date of the calendar (30 February, month 13, a word): stats fails with the date error like every other command - it does not
+    # count the heading and report 0001/01/01 as the last record (fix F27)
+    badd = []
+    for bad_h in ("2021/02/30", "2021/13/01", "soon", "2021/1/5", "2021/04/31"):
+        for pos in ("first", "middle", "last"):
+            hs2 = ["2021/01/10", "2021/01/12", "2021/01/14"]; hs2.insert({"first": 0, "middle": 2, "last": 3}[pos], bad_h)
+            logb2 = "".join("%s:\n  a: 1\n" % h for h in hs2).encode()
+            badd.append(dict(files={"food.yaml": b"x:\n  k: 1\n", "log.yaml": logb2}, cmd="stats", f_today="2021/02/01", **NOCOLOR))
+    bres = cli_diff(ctx, badd, tag="C07:stats-bad-date:")
+    for c, i in zip(badd, bres):
+        ctx.tally("stats_heading_not_a_date", i["status"].split(":")[0] + ":" + (i["status"].split(":") + [""])[1])
+        if i["status"] == "ok":
+            ctx.violation("C07:stats-counts-a-heading-that-is-not-a-date", "stats succeeds on a log with a heading that is not a date and reports %r" % i["stdout"][-120:], dict(kind="cli", case=c, impl=i))
     fres = cli_diff(ctx, [c for c, _, _ in far], tag="C07:stats-far:")
     for (c, hs, today), i in zip(far, fres):
         if i["status"] != "ok": continue
@@ -1431,6 +1460,20 @@ def check_C14(ctx):
                     if abs(qa - qb) > Fraction(6, 1000) + abs(qa) / 2 ** 50: ctx.violation("C14:quantity-changed", "food %r: %s became %s" % (fn, qa, qb), rep); break
                 elif qa != qb and not (isinstance(qa, Fraction) or isinstance(qb, Fraction)):
                     ctx.violation("C14:quantity-changed", "food %r: %s became %s" % (fn, qa, qb), rep); break
+    # notes outside the two documented forms (a value made of '#' only, a text that begins with ':', a name followed by a Unicode blank only, a text that ends in '-' ':' '"'
+    # before a no-break space): the reader strips three character sets in turn and the writer has two fixed forms, so some of these change again when
+    # the printed log is printed (known finding KF5; the model reads notes as the program does, the theorems of Props/C14.v speak of notes in normal form)
+    odd_notes = ["# todo: #", "# rating: ###", "# :: remember the salt", "# :b: c", "# name:\u00a0", "# name: \u3000", "# text-\u00a0", "# x:\u00a0:", "# \"q\":\u00a0", "#:", "# : :", "#  #  # a"]
+    oddn = []
+    for k in range(ctx.scale(6, 40)):
+        lines = ["2021/01/%02d:" % (k % 27 + 1)] + ["  " + nn for nn in r.sample(odd_notes, r.randint(1, 3))] + ["  # barcode: 000", "  coffee/cup: 1"]
+        oddn.append(dict(files={"log.yaml": ("\n".join(lines) + "\n").encode()}, cmd="print", no_database=True, **NOCOLOR))
+    o1 = impl_only(ctx, oddn)
+    o2 = impl_only(ctx, [dict(c, files={"log.yaml": i["stdout"]}) for c, i in zip(oddn, o1)])
+    for c, a, b2 in zip(oddn, o1, o2):
+        ctx.tally("odd_notes", "stable" if (a["status"], a["stdout"]) == (b2["status"], b2["stdout"]) else "changes when printed again")
+        if a["status"] == "ok" and (b2["status"] != "ok" or b2["stdout"] != a["stdout"]):
+            ctx.violation("C14:odd-note-not-stable", "a note outside the documented forms changes again when the printed log is printed: %r / %r" % first_diff(a["stdout"], b2["stdout"]), dict(kind="cli", case=c, impl=a, printed_again=b2))
     return dict(rule="random logs (names with inner punctuation and non-ASCII text, every layout variant, notes of both documented forms, repeated foods, specials) x 4 date formats x "
                 "optional period, a sweep over layouts built from the year / month / day tokens in every order and subset with the admitted literals, plus logs around days whose midnight does not exist in the process time zone (10 zones): print on the real binary vs the extracted Coq model; then, on the implementation alone: print of the printed log is byte-identical, and csv log of the "
                 "printed log has the same (day, food) rows with quantities within the two-decimal rounding of the original's. Non-trivial = every log, distinct by (bytes, layout)")
@@ -1498,7 +1541,7 @@ def check_C15(ctx):
             delta = 27 // 2 if len(rs) % 2 == 0 else 26 // 2
             want = b"".join(rs[:delta]) + "\u2026".encode() + b"".join(rs[len(rs) - 27 + 1 + delta:])
             if c.get("totals_only"): continue
-            if want not in plain:
+            if want not in i["stdout"] and strip_sgr(want) not in plain:      # (a name may itself hold an escape sequence: compared before and after stripping)
                 valid = all(len(x) > 1 or x[0] < 0x80 for x in rs) and b"\xef\xbf\xbd" not in nm
                 key = "C15:shortened-name-not-prefix-and-suffix" + ("" if valid else ":name-not-valid-utf8")
                 ctx.violation(key, "the shortened form of the food name %r is not its first %d and last %d characters around an ellipsis (expected %r in the register)" % (nm, delta, 26 - delta, want),
@@ -1683,7 +1726,7 @@ def check_C16(ctx):
                         eff = None
                         if has["flag"]: c["f_today"] = "2021/01/12"; eff = 10
                         if has["cfg"]:
-                            cfg["now"] = (2021, 1, 22, 0, 0)
+                            cfg["now"] = (2021, 1, 22) + r.choice([(0, 0), (0, 0), (82800, -18000), (3600, 0), (43200, 32400), (86399, -39600)])      # the configured instant's calendar day counts (fix F25)
                             if eff is None: eff = 20
                         c["cmd"] = "stats" if eff is not None else "csv-log"      # without any source the clock decides: nothing to compare
                         if eff is None: chk = lambda i: (i["status"] == "ok", "the command runs")
@@ -1802,7 +1845,10 @@ def check_C16(ctx):
     for a, b2, variant in nd_pairs:
         x, y = ires[a], ires[b2]
         if cases[a]["cmd"] == "stats":       # stats names the book it was given: that line is the one place where the two runs rightly differ
-            x, y = (dict(v, stdout=re.sub(rb"(?m)^\s*Database file:.*\n", b"", v["stdout"])) for v in (x, y))
+            lx, ly = x["stdout"].split(b"\n"), y["stdout"].split(b"\n")
+            if len(lx) == len(ly):     # whatever the label says: a line on which the two runs differ in their last word only, the empty-book run's being the name of its book
+                keep = [j for j in range(len(lx)) if not (lx[j] != ly[j] and re.sub(rb"\S*$", b"", lx[j]) == re.sub(rb"\S*$", b"", ly[j]) and ly[j].rstrip().endswith(b"food.yaml"))]
+                x, y = dict(x, stdout=b"\n".join(lx[j] for j in keep)), dict(y, stdout=b"\n".join(ly[j] for j in keep))
         if (x["status"], x["stdout"]) != (y["status"], y["stdout"]):
             ctx.violation("C16:no-database:" + cases[a]["cmd"], "--no-database (%s) does not behave as an empty recipe book for %s: %r / %r" % ((variant, cases[a]["cmd"]) + first_diff(x["stdout"], y["stdout"])),
                           dict(kind="cli", case=cases[a], impl=x, empty_book_case=cases[b2], empty_book_impl=y))
@@ -1978,7 +2024,7 @@ def check_C18(ctx):
         if i != m:
             lines = i.split(b"\n")
             key = "C18:differs-from-model:" + policy
-            if b"T timeout" in lines and d is not None: key = "C18:consumer-hangs:" + policy
+            if b"T timeout" in lines: key = "C18:consumer-hangs:" + policy      # (also ParseFile on a path that cannot be opened: completion follows the error since fix F23)
             elif policy == "drain" and lines.count(next((l for l in lines if l.startswith(b"E ")), b"?")) > 1: key = "C18:error-seen-twice"
             elif policy == "drain" and b"X alive" in lines: key = "C18:producer-does-not-exit"
             ctx.violation(key, "consumer (%s) observed %r, the callback parser's result is %r" % ((policy,) + first_diff(m, i)), rep)
